@@ -13,6 +13,7 @@ import importlib
 import json
 import multiprocessing as mp
 import os
+import re
 import subprocess
 import sys
 import time
@@ -241,7 +242,7 @@ def write_replay(prop: str, case: dict, violation: dict, run_seed: int, tag: str
     os.makedirs(d, exist_ok=True)
     path = os.path.join(d, f"{tag}.json")
     with open(path, "w") as f:
-        json.dump({"property": prop, "run_seed": run_seed, "violation": violation, "case": case}, f, indent=1, sort_keys=True, default=str)
+        json.dump({"property": prop, "run_seed": run_seed, "violation": violation, "case": case, "python_optimize": int(sys.flags.optimize)}, f, indent=1, sort_keys=True, default=str)
     return path
 
 
@@ -321,6 +322,35 @@ def main_check(mod_name: str, args) -> int:
                 print(e["tb"])
         if exit_code == 0:
             exit_code = 2
+    # ---- second batch with assert statements stripped (python -O): the same seeds, a configuration of the interpreter
+    opt = None
+    if cfg.get("optimize_wall") and not os.environ.get("VERIF_SUBBATCH") and not sys.flags.optimize:
+        env = dict(os.environ, PYTHONOPTIMIZE="1", VERIF_SUBBATCH="1", VERIF_WALL=str(cfg["optimize_wall"]), PYTHONHASHSEED="0", VERIF_NO_REEXEC="1")
+        try:
+            sp = subprocess.run([sys.executable, os.path.join(VERIF, "check.py"), prop, "--tier", tier, "--seed", str(base_seed)], env=env, capture_output=True, text=True, timeout=float(cfg["optimize_wall"]) * 6 + 600)
+            out_lines = (sp.stdout or "").splitlines()
+            summ = [ln for ln in out_lines if ln.startswith(f"property={prop} tier=")]
+            m_runs = re.search(r"runs=(\d+)", summ[-1]) if summ else None
+            opt = {"python_flag": "-O (PYTHONOPTIMIZE=1)", "wall_s": cfg["optimize_wall"], "runs": int(m_runs.group(1)) if m_runs else 0, "exit": sp.returncode}
+            if sp.returncode == 1:
+                for i_, ln in enumerate(out_lines):
+                    if ln.startswith("VIOLATION "):
+                        print(ln + "  [under python -O]")
+                        if i_ + 1 < len(out_lines) and out_lines[i_ + 1].startswith("  clause="):
+                            print(out_lines[i_ + 1])
+                        n_viol += 1
+                exit_code = 1
+            elif sp.returncode != 0:
+                agg["errors"].append({"index": -1, "run_seed": -1, "error": "the python -O batch failed: " + "\n".join(out_lines[-6:]) + (sp.stderr or "")[-600:]})
+                print(f"HARNESS-ERROR property={prop} python -O batch: rc={sp.returncode} " + " | ".join(out_lines[-4:])[:600])
+                if exit_code == 0:
+                    exit_code = 2
+        except subprocess.TimeoutExpired:
+            agg["errors"].append({"index": -1, "run_seed": -1, "error": "the python -O batch timed out"})
+            print(f"HARNESS-ERROR property={prop} python -O batch timed out")
+            if exit_code == 0:
+                exit_code = 2
+    agg["optimize_batch"] = opt
     wall_s = time.monotonic() - t0
     try:
         ev = _evidence.build(mod, agg, tier=tier, seed=base_seed, wall_s=wall_s, n_viol=n_viol, reported=reported, known=list(known_hits.values()))
@@ -344,6 +374,13 @@ def main_replay(mod_name: str, path: str, quiet: bool = False) -> int:
     mod = importlib.import_module(mod_name)
     with open(path) as f:
         rp = json.load(f)
+    if rp.get("python_optimize") and not sys.flags.optimize:
+        # found with assert statements stripped (python -O): replay it the same way
+        env = dict(os.environ, PYTHONOPTIMIZE=str(rp["python_optimize"]), PYTHONHASHSEED="0", VERIF_NO_REEXEC="1")
+        p = subprocess.run([sys.executable, os.path.join(VERIF, "check.py"), mod.PROPERTY, "--replay", path] + (["--quiet"] if quiet else []), env=env, capture_output=True, text=True)
+        sys.stdout.write(p.stdout)
+        sys.stderr.write(p.stderr)
+        return p.returncode
     res = mod.run_case(rp["case"])
     if res.get("error"):
         print(f"HARNESS-ERROR property={mod.PROPERTY} {res['error']}")
